@@ -359,6 +359,15 @@ func runCtl(o *opts) {
 		}
 		// re-execute for the log hash
 		res := ch.Exec(ctx, in)
+		if v.NotReplayable {
+			// found under real concurrency: the Go scheduler decides; try a few times, report in any case
+			for try := 0; try < 4 && (res.Viol == nil || res.Viol.Class != v.Class); try++ {
+				res = ch.Exec(ctx, in)
+			}
+			if res.Viol == nil || res.Viol.Class != v.Class {
+				res = &props.Result{Viol: v, LogHash: "not-reproduced-in-5-attempts"}
+			}
+		}
 		if res.Viol == nil || res.Viol.Class != v.Class {
 			fmt.Printf("HARNESS-TROUBLE: violation %s of case %d did not reproduce in the coordinator (nondeterminism?)\n", v.Class, in.Index)
 			os.Exit(2)
@@ -375,7 +384,9 @@ func runCtl(o *opts) {
 		cmd := exec.Command(self, selfArgs(o, "replay", "-file", path)...)
 		outb, _ := cmd.CombinedOutput()
 		code := cmd.ProcessState.ExitCode()
-		if code != 1 {
+		if code != 1 && v.NotReplayable {
+			fmt.Printf("note: %s was found under real concurrency and did not show again in one replay (not exactly replayable)\n", path)
+		} else if code != 1 {
 			fmt.Printf("HARNESS-TROUBLE: replay of %s in a fresh process exited %d instead of reproducing the violation\n%s\n", path, code, tail(string(outb), 2000))
 			os.Exit(2)
 		}
